@@ -44,6 +44,7 @@ type State struct {
 	recDefs map[string]string
 	callSeq int
 	mapVer  Term
+	escaped []*ssa.Alloc
 }
 
 // mapGet: abstract map content, an uninterpreted function of the map reference,
@@ -134,6 +135,7 @@ func (st *State) clone() *State {
 	for k, v := range st.recDefs {
 		n.recDefs[k] = v
 	}
+	n.escaped = append([]*ssa.Alloc(nil), st.escaped...)
 	n.loops = append([]*Loop(nil), st.loops...)
 	n.defers = append([]deferRec(nil), st.defers...)
 	n.trace = append([]string(nil), st.trace...)
